@@ -77,6 +77,12 @@ fn spawn_worker(exe: &str, profile: &str, a: &RunArgs, k: usize, w: usize, resum
         c.arg("--only-job").arg(j);
     }
     c.env("ASESIM_PROFILE", profile);
+    // every other worker runs with the host's log level at Trace (results must not depend on it)
+    if k % 2 == 1 {
+        c.env("ASESIM_LOG", "trace");
+    } else {
+        c.env_remove("ASESIM_LOG");
+    }
     c.stdin(Stdio::null()).stdout(Stdio::piped()).stderr(Stdio::piped());
     let mut child = c.spawn().expect("cannot spawn worker");
     let tail = std::sync::Arc::new(std::sync::Mutex::new(Vec::new()));
@@ -268,7 +274,8 @@ pub fn run_profile(a: &RunArgs, profile: &str, exe: &str, replay_dir: &str) -> P
                     *total.counters.entry("violations:further-deaths-of-a-known-class".into()).or_insert(0) += 1;
                 } else if counts {
                     let job = props::make_job(&ctx, &a.prop, j);
-                    let plan = job.plan(&ctx, s);
+                    let mut plan = job.plan(&ctx, s);
+                    plan.log_trace = k % 2 == 1;
                     let v = Violation {
                         property: a.prop.clone(),
                         kind: kind.clone(),
@@ -399,7 +406,19 @@ pub fn exec_plan_in_child(exe: &str, plan: &Plan, timeout: Duration) -> Result<O
 }
 
 pub fn exec_file_in_child(exe: &str, path: &str, timeout: Duration) -> Result<Option<Violation>, String> {
-    let mut child = Command::new(exe)
+    // the plan names the configuration it ran under
+    let trace = std::fs::read_to_string(path)
+        .ok()
+        .and_then(|s| serde_json::from_str::<Value>(&s).ok())
+        .and_then(|v| v.get("log_trace").and_then(|x| x.as_bool()))
+        .unwrap_or(false);
+    let mut cmd = Command::new(exe);
+    if trace {
+        cmd.env("ASESIM_LOG", "trace");
+    } else {
+        cmd.env_remove("ASESIM_LOG");
+    }
+    let mut child = cmd
         .arg("exec")
         .arg(path)
         .stdin(Stdio::null())
